@@ -37,6 +37,14 @@ def _ref_whoami_explicit(tok, ctx):   # no context: ``ctx`` is whatever JSON val
     return [tok, None]
 
 
+def _ref_echo_guarded(tok):       # the same function as echo; ``value`` is hidden from the caller
+    return None
+
+
+METHOD_MODELS['echo_guarded'] = R.MethodModel(inspect.signature(_ref_echo_guarded), _ref_echo_guarded)
+PUBLISHED_AS = {'echo_guarded': 'echo'}     # the function records its executions under its own name
+from .ref import chain as _ref_chain  # noqa: E402
+_ref_chain.PUBLISHED_AS.update(PUBLISHED_AS)
 METHOD_MODELS['whoami'] = R.MethodModel(inspect.signature(_ref_whoami), _ref_whoami)
 METHOD_MODELS['whoami_explicit'] = R.MethodModel(inspect.signature(_ref_whoami_explicit), _ref_whoami_explicit)
 
@@ -78,6 +86,9 @@ def gen_element(ch: Choices, tok: str, id_: Any, notification: bool, exotic: boo
                             {'jsonrpc': '2.0', 'method': 'whoami', 'params': {'ctx': 'me', 'tok': tok}},
                             {'jsonrpc': '2.0', 'method': 'whoami_explicit', 'params': [tok]},
                             {'jsonrpc': '2.0', 'method': 'whoami_explicit', 'params': {'tok': tok}}], 'el.nobind.ctx.el')
+        if ch.flag(1, 6, 'el.nobind.guarded'):
+            el = {'jsonrpc': '2.0', 'method': 'echo_guarded',
+                  'params': ch.choice([[tok, 5], {'tok': tok, 'value': 5}, [tok, None]], 'el.nobind.guarded.params')}
         if ch.flag(1, 4, 'el.nobind.kwonly'):
             # keyword-only parameters given by position: as many values as the method has parameters, but they do not bind
             el = {'jsonrpc': '2.0', 'method': 'kwonly',
@@ -484,9 +495,17 @@ class ServerUnderTest:
         cls = pjrpc.server.AsyncDispatcher if is_async else pjrpc.server.Dispatcher
         self.dispatcher = cls(**kwargs)
         self.dispatcher.add_methods(self.service.registry())
+        self._publish_guarded()
         self.context = context
         self.server = ServerNode(w, self.dispatcher, self.loop, node=node,
                                  context_factory=(lambda: context) if context is not None else None)
+
+    def _publish_guarded(self) -> None:
+        """The function behind ``echo`` is published a second time, as ``echo_guarded``, through a validator that hides
+        its ``value`` parameter from callers (dependency-injection style ``exclude_param``)."""
+        from pjrpc.server.validators import BaseValidator
+        guard = BaseValidator(exclude_param=lambda name, annotation, default: name == 'value')
+        self.dispatcher.add(guard.validate(self.service.methods['echo']), name='echo_guarded')
 
     def redeploy(self) -> None:
         """Register a new generation of every function under the same names on the live dispatcher (a hot reload): from
@@ -494,6 +513,7 @@ class ServerUnderTest:
         self.generation += 1
         self.service = Service(self.w, self.cfg['flavour'], node=self.node_name, generation=self.generation)
         self.dispatcher.add_methods(self.service.registry())
+        self._publish_guarded()
         self.w.probe('server.redeployed')
 
     def new_event_loop(self) -> None:
@@ -601,7 +621,7 @@ def normalise_expected_execs(execs: List[Tuple[str, Any]]) -> List[Tuple[str, An
     for m, p in execs:
         sig = METHOD_MODELS[m].signature
         b = sig.bind(*(p if isinstance(p, list) else []), **(p if isinstance(p, dict) else {}))
-        out.append((m, json.loads(json.dumps(dict(b.arguments)))))
+        out.append((PUBLISHED_AS.get(m, m), json.loads(json.dumps(dict(b.arguments)))))
     return out
 
 
